@@ -295,20 +295,7 @@ def rule_limits(ctx, repo, it):
     check_rule(r, 'key-count', ms, repo, ['keys_count < 0 or keys_count > 20'], 'keys_count', 'key count outside 0..20 fails', noreturn=nr)
     check_rule(r, 'sig-count', ms, repo, ['sigs_count < 0 or sigs_count > keys_count'], 'sigs_count', 'signature count outside 0..keys fails', noreturn=nr)
     g = check_rule(r, 'multisig-op-count', ms, repo, ['nOpCount[0] > 201'], 'nOpCount', 'key count is charged against the 201-operation limit', noreturn=nr)
-    # order: range check of the key count, then += keys_count, then the limit comparison
-    body = ms.node.body
-    idx = {}
-    for k, s in enumerate(body):
-        t = norm(s)
-        if isinstance(s, ast.If) and 'keys_count > 20' in canon_guard(s.test, repo, ms.module):
-            idx['range'] = k
-        if isinstance(s, ast.AugAssign) and t.startswith('nOpCount[0] += keys_count'):
-            idx['add'] = k
-        if isinstance(s, ast.If) and canon_guard(s.test, repo, ms.module) == 'nOpCount[0] > 201':
-            idx['limit'] = k
-    ok = set(idx) == {'range', 'add', 'limit'} and idx['range'] < idx['add'] < idx['limit']
-    r.check(ok, 'multisig-op-count:order', ms.site, 'range check, then nOpCount += keys, then the comparison',
-            'order in _CheckMultiSig is %s; reference: validate the key count (0..20), add it to the operation count, then compare with 201 (an unvalidated count must never be charged)' % sorted(idx.items(), key=lambda kv: kv[1]))
+    multisig_order_check(r, repo, ms)
     # NULLDUMMY
     found = None
     for n in walk_no_nested(ms.node):
@@ -326,6 +313,23 @@ def rule_limits(ctx, repo, it):
             r.violated('nulldummy', common.site_of(ms, inner[0]), 'NULLDUMMY requires the dummy element to be the empty byte vector; the test is `%s`' % tests[0])
         else:
             r.violated('nulldummy', common.site_of(ms, found), 'NULLDUMMY branch never fails')
+
+
+def multisig_order_check(r, repo, ms):
+    # order: range check of the key count, then += keys_count, then the limit comparison
+    body = ms.node.body
+    idx = {}
+    for k, s in enumerate(body):
+        t = norm(s)
+        if isinstance(s, ast.If) and 'keys_count > 20' in canon_guard(s.test, repo, ms.module):
+            idx['range'] = k
+        if isinstance(s, ast.AugAssign) and t.startswith('nOpCount[0] += keys_count'):
+            idx['add'] = k
+        if isinstance(s, ast.If) and canon_guard(s.test, repo, ms.module) == 'nOpCount[0] > 201':
+            idx['limit'] = k
+    ok = set(idx) == {'range', 'add', 'limit'} and idx['range'] < idx['add'] < idx['limit']
+    r.check(ok, 'multisig-op-count:order', ms.site, 'range check, then nOpCount += keys, then the comparison',
+            'order in _CheckMultiSig is %s; reference: validate the key count (0..20), add it to the operation count, then compare with 201 (an unvalidated count must never be charged)' % sorted(idx.items(), key=lambda kv: kv[1]))
 
 
 # ------------------------------------------------------------------------------------------------ L2
